@@ -146,6 +146,13 @@ pub fn vendor_call(include_invalid: bool, over: bool) -> BoxedStrategy<EncCall> 
     let max = if over { 300 } else { 245 };
     (vendor_format(include_invalid), pci_or_iana_data(), any::<u16>(), bytes_upto(max))
         .prop_map(move |(format, data, numeric, mut msg)| {
+            // relation between two arguments: one message in eight begins with
+            // the very bytes of the vendor ID header
+            if numeric & 7 == 0 {
+                let mut m = if format == 0 { vec![(data >> 8) as u8, data as u8] } else { data.to_be_bytes().to_vec() };
+                m.extend_from_slice(&msg);
+                msg = m;
+            }
             if !over {
                 let lim = if format == 0 { 247 } else { 245 };
                 msg.truncate(lim);
@@ -508,7 +515,7 @@ pub fn random_behind_header() -> BoxedStrategy<Vec<u8>> {
 /// Control requests with every command / operation / selector value and the
 /// right data length, valid PEC: the inputs process_packet acts upon.
 pub fn actionable_request() -> BoxedStrategy<Vec<u8>> {
-    (addr7(), addr7(), any_u8(), any_u8(), 0u8..32, cmd_byte(), vec(any::<u8>(), 0..=20), any::<u8>(), any::<u8>())
+    (addr7(), addr7(), any_u8(), any_u8(), 0u8..32, cmd_byte(), vec(any::<u8>(), 0..=20), prop_oneof![2 => any_u8(), 1 => 0u8..2], any_u8())
         .prop_map(|(dst, src, de, se, iid, cmd, mut data, b0, b1)| {
             if let Some(l) = refmodel::req_fixed_len(cmd) {
                 data.resize(l, 0);
@@ -566,6 +573,13 @@ pub type ReqWeights = [u32; 7];
 /// A well-formed control request addressed to responder `a`, whose SMBus
 /// source address and source EID name the same 7-bit requester.
 pub fn ctrl_request(a: u8, nvend: usize, w: ReqWeights) -> BoxedStrategy<Vec<u8>> {
+    ctrl_request_from(a, nvend, w, [(0x34, 0), (0x34, 0)])
+}
+
+/// As `ctrl_request`; one request in three comes from one of the two
+/// (requester, instance id) pairs of `pool`, so that several requests of one
+/// history share requester and instance id.
+pub fn ctrl_request_from(a: u8, nvend: usize, w: ReqWeights, pool: [(u8, u8); 2]) -> BoxedStrategy<Vec<u8>> {
     let nv = nvend.max(1);
     let kind: BoxedStrategy<(u8, Vec<u8>)> = proptest::strategy::Union::new_weighted(vec![
         (w[0].max(1), (prop_oneof![6 => Just(0u8), 6 => Just(1u8), 3 => Just(3u8), 2 => Just(2u8), 1 => Just(4u8), 1 => Just(5u8), 1 => Just(0x80u8), 1 => Just(0x81u8), 1 => 4u8..=255], set_eid_value(false)).prop_map(|(op, eid)| (0x01u8, vec![op, eid])).boxed()),
@@ -583,19 +597,24 @@ pub fn ctrl_request(a: u8, nvend: usize, w: ReqWeights) -> BoxedStrategy<Vec<u8>
     ])
     .boxed();
     (
-        prop_oneof![5 => 0u8..=0x7F, 1 => Just(0x34u8), 1 => Just(0x7Fu8), 1 => Just(0x00u8), 2 => 0x80u8..=0xFF],
-        prop_oneof![4 => 0u8..32, 1 => Just(0u8), 1 => Just(31u8)],
+        prop_oneof![
+            6 => (prop_oneof![5 => 0u8..=0x7F, 1 => Just(0x34u8), 1 => Just(0x7Fu8), 1 => Just(0x00u8), 2 => 0x80u8..=0xFF], prop_oneof![4 => 0u8..32, 1 => Just(0u8), 1 => Just(31u8)]),
+            2 => Just(pool[0]),
+            1 => Just(pool[1]),
+        ],
+        // datagram and reserved bits of the control byte: mostly clear
+        prop_oneof![6 => Just(0u8), 2 => Just(0x40u8), 1 => Just(0x20u8), 1 => Just(0x60u8)],
         any_u8(),
         prop_oneof![3 => Just(0xC8u8), 1 => (0u8..16).prop_map(|t| 0xC0 | t)],
         kind,
     )
-        .prop_map(move |(s, iid, dest_eid, flags, (cmd, mut data))| {
+        .prop_map(move |((s, iid), dbits, dest_eid, flags, (cmd, mut data))| {
             // relation between fields: now and then the assigned EID equals the
             // requester's own EID, or the destination EID names the EID byte
             if cmd == 0x01 && data.len() == 2 && dest_eid & 7 == 0 && s != 0 && s != 0xFF {
                 data[1] = s;
             }
-            let mut body = vec![0x80 | iid, cmd];
+            let mut body = vec![0x80 | dbits | (iid & 0x1F), cmd];
             body.extend_from_slice(&data);
             refmodel::build_packet(a, s, dest_eid, s, flags, 0x00, &body)
         })
@@ -646,10 +665,10 @@ fn process_op(bytes: BoxedStrategy<Vec<u8>>) -> BoxedStrategy<Op> {
 
 /// Operation mix for the responder properties.  `w` weights the request
 /// kinds; `seteid_noise` adds corrupted / decode-only Set Endpoint ID traffic.
-pub fn responder_op(a: u8, nvend: usize, w: ReqWeights, seteid_noise: u32, uuid_updates: u32) -> BoxedStrategy<Op> {
+pub fn responder_op(a: u8, nvend: usize, w: ReqWeights, seteid_noise: u32, uuid_updates: u32, pool: [(u8, u8); 2]) -> BoxedStrategy<Op> {
     let seteid_only: ReqWeights = [1000, 1, 1, 1, 1, 1, 1];
     proptest::strategy::Union::new_weighted(vec![
-        (12, process_op(ctrl_request(a, nvend, w))),
+        (12, process_op(ctrl_request_from(a, nvend, w, pool))),
         (seteid_noise.max(1), process_op(spoiled(ctrl_request(a, nvend, seteid_only)))),
         (seteid_noise.max(1), ctrl_request(a, nvend, seteid_only).prop_map(|bytes| Op::Decode { bytes }).boxed()),
         (2, process_op(spoiled(ctrl_request(a, nvend, w)))),
@@ -668,11 +687,11 @@ pub fn responder_op(a: u8, nvend: usize, w: ReqWeights, seteid_noise: u32, uuid_
 
 /// (configuration, history) for the responder properties.
 pub fn responder_case(w: ReqWeights, seteid_noise: u32, uuid_updates: u32, max_ops: usize) -> BoxedStrategy<(CtxCfg, Vec<Op>)> {
-    ctx_cfg()
-        .prop_flat_map(move |cfg| {
+    (ctx_cfg(), any::<u8>(), 0u8..32, any::<u8>(), 0u8..32)
+        .prop_flat_map(move |(cfg, s1, i1, s2, i2)| {
             let a = cfg.addr;
             let n = cfg.vendors.len();
-            (Just(cfg), vec(responder_op(a, n, w, seteid_noise, uuid_updates), 1..=max_ops))
+            (Just(cfg), vec(responder_op(a, n, w, seteid_noise, uuid_updates, [(s1, i1), (s2, i2)]), 1..=max_ops))
         })
         .boxed()
 }
